@@ -114,7 +114,21 @@ func rxCondition(mode int, src string) (influxql.Expr, error) {
 	}
 	stmt, err := influxql.ParseStatement("SELECT v FROM m WHERE " + text)
 	if err == nil {
-		return stmt.(*influxql.SelectStatement).Condition, nil
+		// the text form is only used when it really denotes this source (a source ending in a
+		// backslash, for instance, swallows the closing slash: `/\\/`)
+		cond := stmt.(*influxql.SelectStatement).Condition
+		n, same := 0, true
+		influxql.WalkFunc(cond, func(node influxql.Node) {
+			if rl, ok := node.(*influxql.RegexLiteral); ok {
+				n++
+				if rl.Val == nil || rl.Val.String() != src {
+					same = false
+				}
+			}
+		})
+		if same && n == []int{1, 1, 1, 3, 2}[mode%rxModes] {
+			return cond, nil
+		}
 	}
 	re, cerr := regexp.Compile(src)
 	if cerr != nil {
@@ -325,14 +339,25 @@ func implRegexSem(args []string) string {
 	if err != nil {
 		return "skip-oracle-call"
 	}
-	strs := rxEnumerate([]rune(alpha), int(bound))
+	ar := []rune(alpha)
+	strs := rxEnumerate(ar, int(bound))
 	sb := make([]bool, len(strs))
 	fb := make([]bool, len(strs))
+	bb := make([]bool, len(strs))
+	// third vector: the same strings with the last-but-one rune of the alphabet (the foreign
+	// rune) written as the stray byte 0xff, which the model reads as U+FFFD
+	stray := ""
+	if len(ar) >= 2 {
+		stray = string(ar[len(ar)-2])
+	}
 	for i, s := range strs {
 		sb[i] = re.MatchString(s)
 		fb[i] = full.MatchString(s)
+		if stray != "" {
+			bb[i] = re.MatchString(strings.Replace(s, stray, "\xff", -1))
+		}
 	}
-	return fmt.Sprintf("n%d S%s F%s", len(strs), bitsHex(sb), bitsHex(fb))
+	return fmt.Sprintf("n%d S%s F%s B%s", len(strs), bitsHex(sb), bitsHex(fb), bitsHex(bb))
 }
 
 // ---- property oracle ----
@@ -477,7 +502,7 @@ var rxCorners = []string{
 	`^\d$`, `^\d\d$`, `^\d\d\d$`, `^\w$`, `^[a-z]$`, `^[a-zA-Z]$`, `^[a-z][0-9]$`, `^\pL$`, `^[[:alpha:]]$`, `^\s$`, `^[^a]$`, `^.$`,
 	`^()$`, `^(?:)$`, `^(a)(b)$`, `^((a))$`, `^(?P<n>a|b)$`, `^(a|b|c|d)$`, `^(a|b)c(d|e)$`, `^x(a|b)$`, `^(a|b)x$`, `^x(a|b)y$`,
 	`^(ab|ac)$`, `^(ab|cd|ef)$`, `^(a|bc|d)$`, `^a|^b`, `^a$|^b$`, `(^a$)`, `(^a)$`, `^(a$)`, `^(?:a$)`, `(?:^a)$`, `^a$b`, `a^b$`, `^\$$`, `^\^$`,
-	`^ $`, `^a b$`, `^\t$`, `^\n$`, `^a\nb$`, `^[\n]$`, `^(a|\n)$`, "^a\nb$", "^a\x00b$", `^\x00$`, `^'$`, `^a'b$`, `^"$`, `^\\$`,
+	`^ $`, `^a b$`, `^\t$`, `^\n$`, `^a\nb$`, `^[\n]$`, `^(a|\n)$`, "^a\nb$", "^a\x00b$", `^\x00$`, `^'$`, `^a'b$`, `^"$`, `^\\$`, `\\`, `^a\\`, `^(a|\\)$`,
 }
 
 // rxLimitCorners: shapes around the limit of 100 literals.
@@ -782,10 +807,11 @@ func init() {
 				return out
 			}
 			i := strings.Index(out, " F")
-			if i < 0 {
+			j := strings.Index(out, " B")
+			if i < 0 || j < i {
 				return "other"
 			}
-			if strings.Trim(out[i+2:], "0") == "" {
+			if strings.Trim(out[i+2:j], "0") == "" {
 				if strings.Trim(out[strings.Index(out, "S")+1:i], "0") == "" {
 					return "matches-nothing-in-range"
 				}
